@@ -6,7 +6,7 @@
    AppendSync has written and fsynced its record before it returns is an ordering property of
    system calls: it is checked on the strace of the real appender by the correspondence. *)
 From GoSST Require Import Base.Bytes RecordIO.Format RecordIO.WriteReadFacts Wal.Wal Wal.WalFacts.
-From GoSST Require Import Fs.OrderFacts.
+From GoSST Require Import Fs.OrderFacts RecordIO.BufWriter Wal.LogProgram Wal.LogBufferFacts.
 From GoSSTGen Require Import FactsCode.
 Local Open Scope N_scope.
 
@@ -60,3 +60,13 @@ Theorem C07_log_order_facts :
   rotate_closes_before_next_file = Some true.
 Proof. exact log_facts. Qed.
 Print Assumptions C07_log_order_facts.
+
+(* behind the write buffer (recordio/bufio_vendor.go, modelled in RecordIO/BufWriter.v and compared call by call with
+   the real writer): when a synchronous append returns, the file holds every record appended so far, whole - for ANY
+   buffer size and ANY earlier mix of synchronous and asynchronous appends *)
+Theorem C07_sync_append_reaches_the_file :
+  forall (c : codec) (cap : nat) (rs : list (bool * bytes)) (r : bytes),
+  written_by (concat (fst (bw_run cap [] (log_ops c (rs ++ [(true, r)])))))
+  = wal_file c (map snd (rs ++ [(true, r)])).
+Proof. exact sync_append_reaches_the_file. Qed.
+Print Assumptions C07_sync_append_reaches_the_file.
